@@ -537,6 +537,168 @@ fn index_of(init: &V, prog: &[Instr], term: &Terminal) -> Vec<usize> {
     v
 }
 
+/// Single-step table for an arbitrary payload type (the combinators are generic: the payload type -
+/// zero sized, one byte, heap allocated - must not matter): every method once per input case and
+/// closure outcome, with invocation counts.
+fn single_steps<T: Clone + PartialEq + std::fmt::Debug>(mk: &dyn Fn() -> T, tname: &str, report: &mut Report) {
+    use std::cell::Cell;
+    #[derive(Clone, Debug, PartialEq)]
+    enum C<T> {
+        F,
+        Ok(T),
+        Err(i64),
+    }
+    fn to_p<T: Clone>(c: &C<T>) -> Parsed<T, i64> {
+        match c {
+            C::F => Fallthrough,
+            C::Ok(v) => Res(Ok(v.clone())),
+            C::Err(e) => Res(Err(*e)),
+        }
+    }
+    fn of_p<T>(p: Parsed<T, i64>) -> C<T> {
+        match p {
+            Fallthrough => C::F,
+            Res(Ok(v)) => C::Ok(v),
+            Res(Err(e)) => C::Err(e),
+        }
+    }
+    let mut check = |what: String, ok: bool, detail: String| {
+        report.evaluations += 1;
+        report.transitions += 1;
+        report.nontrivial += 1;
+        if !ok {
+            report.violation(format!("combinator/payload-{tname}"), format!("payload type {tname}: {what}: {detail}"), json!({"property": "C15", "payload": tname, "what": what}), 1);
+        }
+    };
+    let cases: Vec<C<T>> = vec![C::F, C::Ok(mk()), C::Err(7)];
+    for init in &cases {
+        let is_ok = matches!(init, C::Ok(_));
+        let is_f = matches!(init, C::F);
+        let is_err = matches!(init, C::Err(_));
+        // or_parse with every alternative
+        for alt in &cases {
+            let n = Cell::new(0u32);
+            let got = of_p(to_p(init).or_parse(|| {
+                n.set(n.get() + 1);
+                to_p(alt)
+            }));
+            let want = if is_f { alt.clone() } else { init.clone() };
+            check(format!("{init:?}.or_parse(-> {alt:?})"), got == want && n.get() == is_f as u32, format!("got {got:?} with {} call(s)", n.get()));
+        }
+        for alt_ok in [true, false] {
+            let n = Cell::new(0u32);
+            let got = to_p(init).or_always_parse(|| {
+                n.set(n.get() + 1);
+                if alt_ok { Ok(mk()) } else { Err(9) }
+            });
+            let want: Result<T, i64> = match init {
+                C::F => if alt_ok { Ok(mk()) } else { Err(9) },
+                C::Ok(v) => Ok(v.clone()),
+                C::Err(e) => Err(*e),
+            };
+            check(format!("{init:?}.or_always_parse(-> ok={alt_ok})"), got == want && n.get() == is_f as u32, format!("got {got:?} with {} call(s)", n.get()));
+        }
+        {
+            let n = Cell::new(0u32);
+            let got = to_p(init).or_give_up(|| {
+                n.set(n.get() + 1);
+                5
+            });
+            let want: Result<T, i64> = match init {
+                C::F => Err(5),
+                C::Ok(v) => Ok(v.clone()),
+                C::Err(e) => Err(*e),
+            };
+            check(format!("{init:?}.or_give_up"), got == want && n.get() == is_f as u32, format!("got {got:?} with {} call(s)", n.get()));
+        }
+        {
+            let got = to_p(init).optional();
+            let want: Result<Option<T>, i64> = match init {
+                C::F => Ok(None),
+                C::Ok(v) => Ok(Some(v.clone())),
+                C::Err(e) => Err(*e),
+            };
+            check(format!("{init:?}.optional"), got == want, format!("got {got:?}"));
+            let got = to_p(init).matches();
+            let want: Result<bool, i64> = match init {
+                C::F => Ok(false),
+                C::Ok(_) => Ok(true),
+                C::Err(e) => Err(*e),
+            };
+            check(format!("{init:?}.matches"), got == want, format!("got {got:?}"));
+        }
+        for cont_ok in [true, false] {
+            let n = Cell::new(0u32);
+            let got = of_p(to_p(init).and_then(|v| {
+                n.set(n.get() + 1);
+                if cont_ok { Ok(v) } else { Err(9) }
+            }));
+            let want = if is_ok && !cont_ok { C::Err(9) } else { init.clone() };
+            check(format!("{init:?}.and_then(-> ok={cont_ok})"), got == want && n.get() == is_ok as u32, format!("got {got:?} with {} call(s)", n.get()));
+            let n = Cell::new(0u32);
+            let got = of_p(to_p(init).and_also(|_v| {
+                n.set(n.get() + 1);
+                if cont_ok { Ok(()) } else { Err(9) }
+            }));
+            check(format!("{init:?}.and_also(-> ok={cont_ok})"), got == want && n.get() == is_ok as u32, format!("got {got:?} with {} call(s)", n.get()));
+            // ResultExt on plain results
+            if !is_f {
+                let r: Result<T, i64> = match init {
+                    C::Ok(v) => Ok(v.clone()),
+                    C::Err(e) => Err(*e),
+                    C::F => unreachable!(),
+                };
+                let n = Cell::new(0u32);
+                let got = ResultExt::and_also(r.clone(), |_v| {
+                    n.set(n.get() + 1);
+                    if cont_ok { Ok(()) } else { Err(9) }
+                });
+                let want_r: Result<T, i64> = if is_ok && !cont_ok { Err(9) } else { r.clone() };
+                check(format!("Result {r:?}.and_also(-> ok={cont_ok})"), got == want_r && n.get() == is_ok as u32, format!("got {got:?} with {} call(s)", n.get()));
+            }
+        }
+        {
+            let n = Cell::new(0u32);
+            let got = of_p(to_p(init).and_do(|_v| n.set(n.get() + 1)));
+            check(format!("{init:?}.and_do"), got == *init && n.get() == is_ok as u32, format!("got {got:?} with {} call(s)", n.get()));
+            let n = Cell::new(0u32);
+            let got = of_p(to_p(init).map(|v| {
+                n.set(n.get() + 1);
+                v
+            }));
+            check(format!("{init:?}.map"), got == *init && n.get() == is_ok as u32, format!("got {got:?} with {} call(s)", n.get()));
+            let n = Cell::new(0u32);
+            let got = of_p(to_p(init).map_err(|e| {
+                n.set(n.get() + 1);
+                e + 1
+            }));
+            let want = if let C::Err(e) = init { C::Err(e + 1) } else { init.clone() };
+            check(format!("{init:?}.map_err"), got == want && n.get() == is_err as u32, format!("got {got:?} with {} call(s)", n.get()));
+            let got = of_p(to_p(init).err_into::<i64>());
+            check(format!("{init:?}.err_into"), got == *init, format!("got {got:?}"));
+            let back = of_p(Parsed::from(match init {
+                C::Ok(v) => Ok(v.clone()),
+                C::Err(e) => Err(*e),
+                C::F => Err(-1),
+            }));
+            let want = if is_f { C::Err(-1) } else { init.clone() };
+            check(format!("Parsed::from(result of {init:?})"), back == want, format!("got {back:?}"));
+            if !is_f {
+                let r: Result<T, i64> = match init {
+                    C::Ok(v) => Ok(v.clone()),
+                    C::Err(e) => Err(*e),
+                    C::F => unreachable!(),
+                };
+                let n = Cell::new(0u32);
+                let got = ResultExt::and_do(r.clone(), |_v| n.set(n.get() + 1));
+                check(format!("Result {r:?}.and_do"), got == r && n.get() == is_ok as u32, format!("got {got:?} with {} call(s)", n.get()));
+                let got: Result<T, i64> = ResultExt::err_into(r.clone());
+                check(format!("Result {r:?}.err_into"), got == r, format!("got {got:?}"));
+            }
+        }
+    }
+}
+
 pub fn run(tier: Tier, report: &mut Report) {
     let ins = all_instrs();
     let ts = all_terminals();
@@ -590,6 +752,14 @@ pub fn run(tier: Tier, report: &mut Report) {
         s["closure_calls"] = json!(format!("{real_calls:?}"));
         report.sample(s);
     }
+    // payload types: the combinators are generic, the payload's size or kind must not matter
+    single_steps::<()>(&|| (), "unit", report);
+    single_steps::<[u64; 0]>(&|| [], "empty-array", report);
+    single_steps::<u8>(&|| 200u8, "u8", report);
+    single_steps::<String>(&|| "payload".to_string(), "String", report);
+    single_steps::<Vec<u128>>(&|| vec![1, 2, 3], "Vec", report);
+    single_steps::<Option<Box<i64>>>(&|| None, "None", report);
+    report.completed.push("single-step table of every method x input case x closure outcome for the payload types (), [u64; 0], u8, String, Vec<u128>, Option<Box<i64>>".to_string());
     report.completed.push(format!(
         "all programs of <= {max_len} combinators ({} instruction variants) x 3 initial cases x {} terminals",
         ins.len(),
@@ -598,6 +768,17 @@ pub fn run(tier: Tier, report: &mut Report) {
 }
 
 pub fn replay(v: &Value) -> (bool, String) {
+    if v.get("payload").is_some() {
+        let mut r = Report::new();
+        single_steps::<()>(&|| (), "unit", &mut r);
+        single_steps::<[u64; 0]>(&|| [], "empty-array", &mut r);
+        single_steps::<u8>(&|| 200u8, "u8", &mut r);
+        single_steps::<String>(&|| "payload".to_string(), "String", &mut r);
+        single_steps::<Vec<u128>>(&|| vec![1, 2, 3], "Vec", &mut r);
+        single_steps::<Option<Box<i64>>>(&|| None, "None", &mut r);
+        let text: String = r.violations.values().map(|x| format!("  {}\n", x.what)).collect();
+        return (r.violation_count > 0, format!("single-step table over the payload types: {} deviation(s)\n{text}", r.violation_count));
+    }
     let idx: Vec<usize> = v["index"].as_array().unwrap().iter().map(|x| x.as_u64().unwrap() as usize).collect();
     let ins = all_instrs();
     let ts = all_terminals();
